@@ -295,7 +295,8 @@ def model_witness(unit_name, model):
 
 # ----------------------------------------------------------------------------- native contract
 
-FUNCS = {'mean': np.mean, 'max': np.max, 'sum': np.sum, 'len': len, 'lambda-range': lambda x: float(np.max(x) - np.min(x)), 'lambda-first-plus-last': lambda x: float(x[0] + 10 * x[-1])}
+FUNCS = {'mean': np.mean, 'max': np.max, 'sum': np.sum, 'len': len, 'lambda-range': lambda x: float(np.max(x) - np.min(x)), 'lambda-first-plus-last': lambda x: float(x[0] + 10 * x[-1]),
+         'lambda-count': lambda x: float(np.sum(np.asarray(x) > 1))}
 
 
 def label_vectors(maxlen):
@@ -316,6 +317,17 @@ def label_vectors(maxlen):
                 yield tuple(cv)
 
 
+def _frame(*arrays):
+    """copies of the caller's arrays, taken before the call under test"""
+    return [np.array(a_, copy=True) for a_ in arrays]
+
+
+def _changed(arrays, copies):
+    """the references below are computed from the caller's arrays AFTER the call: an array the call has modified in place would make the
+    reference follow the defect.  (The reference is therefore only trusted when the arrays are still what they were.)"""
+    return not all(np.array_equal(a_, c_, equal_nan=a_.dtype.kind == 'f') for a_, c_ in zip(arrays, copies))
+
+
 def replay(w):
     import emd.cycles as EC
     kind = w.get('kind')
@@ -325,11 +337,14 @@ def replay(w):
         f = FUNCS[w['func']]
         K = cv.max() + 1
         exp = np.array([float(f(vals[cv == c])) for c in range(K)])
+        k0 = _frame(cv, vals)
         try:
             got = EC.get_cycle_stat(cv, vals, func=f)
             gots = EC.get_cycle_stat(cv, vals, func=f, out='samples')
         except Exception as ex:
             return True, 'get_cycle_stat raised %s: %s (cv=%s)' % (type(ex).__name__, ex, cv.tolist())
+        if _changed((cv, vals), k0):
+            return True, "get_cycle_stat modified the caller's label / value vectors (cv=%s)" % k0[0].tolist()
         if got.shape != exp.shape or not np.allclose(got, exp):
             return True, 'per-cycle %s = %s, direct computation %s (cv=%s vals=%s)' % (w['func'], got.tolist(), exp.tolist(), cv.tolist(), vals.tolist())
         exps = np.array([exp[c] if c >= 0 else np.nan for c in cv])
@@ -342,10 +357,13 @@ def replay(w):
         a, b = w['a'], w['b']
         ph = np.concatenate([np.linspace(0, 2 * np.pi, L, endpoint=False) + w['offset'] * (2 * np.pi / L) for L in lens])
         x = a * ph + b if w['fn'] == 'linear' else np.sin(ph) if w['fn'] == 'sin' else np.cos(2 * ph)
+        k0 = _frame(ph, x)
         try:
             avg, bins = EC.phase_align(ph, x, npoints=npoints, interp_kind=w.get('interp', 'linear'))
         except Exception as ex:
             return True, 'phase_align raised %s: %s (cycle lengths %s, npoints %d)' % (type(ex).__name__, ex, lens, npoints)
+        if _changed((ph, x), k0):
+            return True, "phase_align modified the caller's phase / value vectors (cycle lengths %s)" % lens
         if avg.shape != (npoints, len(lens)):
             return True, 'phase_align output shape %s, expected (%d, %d)' % (avg.shape, npoints, len(lens))
         target = a * bins + b if w['fn'] == 'linear' else np.sin(bins) if w['fn'] == 'sin' else np.cos(2 * bins)
@@ -379,10 +397,13 @@ def replay(w):
         a, b = w['a'], w['b']
         x = a * ip + b if w['fn'] == 'linear' else np.cos(ip)
         kind_ = w.get('interp', 'linear')
+        k0 = _frame(ip, x, cv)
         try:
             avg, bins = EC.phase_align(ip, x, cycles=cv, npoints=w['npoints'], interp_kind=kind_)
         except Exception as ex:
             return True, 'phase_align raised %s: %s (explicit cycles with %s samples)' % (type(ex).__name__, ex, [len(p_) for p_ in phases])
+        if _changed((ip, x, cv), k0):
+            return True, "phase_align modified the caller's phase / value / cycle vectors (explicit cycles with %s samples)" % [len(p_) for p_ in phases]
         if avg.shape != (w['npoints'], len(phases)):
             return True, 'phase_align output shape %s, expected (%d, %d)' % (avg.shape, w['npoints'], len(phases))
         for c_, p_ in enumerate(phases):
@@ -402,10 +423,13 @@ def replay(w):
         import warnings
         with warnings.catch_warnings():
             warnings.simplefilter('ignore')
+            k0 = _frame(ip, x)
             try:
                 avg, var, centres = EC.bin_by_phase(ip, x, nbins=nbins)
             except Exception as ex:
                 return True, 'bin_by_phase raised %s: %s' % (type(ex).__name__, ex)
+            if _changed((ip, x), k0):
+                return True, "bin_by_phase modified the caller's phase / value arrays (nbins=%d)" % nbins
         edges = np.linspace(0, 2 * np.pi, nbins + 1)
         if avg.shape[0] != nbins:
             return True, 'bin_by_phase returned %d bins, expected %d' % (avg.shape[0], nbins)
@@ -460,6 +484,23 @@ def refute(tier, seed, emit):
                 ok, msg = replay(w)
                 if ok:
                     emit.violation('stat-is-func-of-exactly-the-labelled-samples:any-labelling', w, msg)
+        if emit.full:
+            return
+    # label numbers that carry NO sample (a cycle struck out by setting its samples to -1 without renumbering the others): the statistic of that
+    # label is the function applied to zero samples - 0 for a count or a sum - not a placeholder
+    emit.scope('every label vector of length <= %d over {-1,0,1,2,3} in which some label below the largest one is ABSENT x reducers {len, sum, lambda-count}: the absent label gets func(no samples)' % ml2, exhaustive=True)
+    for n in range(1, ml2 + 1):
+        for cv in itertools.product((-1, 0, 1, 2, 3), repeat=n):
+            K = max(cv) + 1
+            if K == 0 or all(k in cv for k in range(K)):
+                continue
+            vals = [((7 * i + 3) % 5) + 0.25 * i for i in range(n)]
+            for fn in ('len', 'sum', 'lambda-count'):
+                emit.case(('absent', cv, fn), nontrivial=True, contract='get_cycle_stat')
+                w = {'kind': 'cycle_stat', 'cv': list(cv), 'vals': vals, 'func': fn}
+                ok, msg = replay(w)
+                if ok:
+                    emit.violation('stat-is-func-of-exactly-the-labelled-samples:label-without-samples', w, msg)
         if emit.full:
             return
     r = rng(seed, 14)
